@@ -517,6 +517,23 @@ def generate(repo):
     L.append('/-- the datetime field is strftime(format ++ separator with every `%` doubled) (`true`: the separator is')
     L.append('literal text) or strftime(format ++ separator) (`false`: a `%` in the separator is interpreted) -/')
     L.append(f'def PREPEND_SEPARATOR_LITERAL : Bool := {b(sep_literal)}')
+    # the datetime field of a message is a function of THAT message's instant, the -d format and the zone only: the four
+    # `datetime_to_string_*` take `&self` (no state to remember between messages) and read `.dt()` of their argument
+    # (seeded change C13-d cached the last formatted field keyed on milliseconds)
+    stateless = True
+    for fn in ('datetime_to_string_sysline', 'datetime_to_string_fixedstruct', 'datetime_to_string_evtx', 'datetime_to_string_journalentry'):
+        mm = re.search(r'fn ' + fn + r'\s*\(\s*(&mut self|&self)\s*,', src)
+        if not mm:
+            raise GenError(f'printers.rs: fn {fn}(&self, …) not found')
+        _, fb, _ = find_fn(src, fn)
+        fflat = re.sub(r'\s+', ' ', fb)
+        ok = (mm.group(1) == '&self' and '.dt()' in fflat and '.with_timezone(&self.prepend_date_offset)' in fflat
+              and 'self.prepend_date_format.as_str()' in fflat and not re.search(r'\bself\.\w+ = ', fflat)
+              and not re.search(r'\b(static|thread_local|RefCell|Cell<|Mutex|lazy_static)\b', fflat) and 'return ' not in fflat)
+        stateless = stateless and ok
+    L.append('/-- the four `datetime_to_string_*`: `&self`, `x.dt().with_timezone(&self.prepend_date_offset).format(self.prepend_date_format.as_str())`, no')
+    L.append('assignment to a field, no early `return`, no interior-mutable state (`true`) -/')
+    L.append(f'def DT_FIELD_STATELESS : Bool := {b(stateless)}')
     L.append('')
     L.append('end S4V.Gen.Print')
     return '\n'.join(L) + '\n', {'BUFFER_CAP': cap, 'functions': len(names), 'macro_invocations_checked': ninv, 'highlight_cases': narms}
